@@ -608,6 +608,11 @@ func runC02(r *Run) {
 	})
 
 	// R4 ------------------------------------------------------------------------------
+	r.rule("R6", "a route keeps the constraints it was registered with: every parsed Constraint holds the slice header of App.customConstraints as it was at registration (analyseParameterPart stores the variadic slice as is), so that list may only grow by append — no element is assigned, no copy() or slices.Insert shifts it in place; a shift moves the constraints out of the view of the routes registered before, whose custom constraint is then no longer found and lets every value pass (E8 ownership of shared storage)", func() {
+		sharedSliceIsAppendOnlyRule(r, "", "customConstraints", "the application's list of custom constraints",
+			"routes registered earlier share this backing array through the slice header stored in their Constraint; after an in-place shift their view ends before (or at another) constraint, the lookup by name fails and `/n/:n<even>` serves /n/3 and /n/abc")
+	})
+
 	r.rule("R5", "a parameter is optional by its own marker only: what analyseParameterPart stores as routeSegment.IsOptional is (apart from the wildcard case) the comparison of the pattern byte at the parameter's end position with '?' — not the outcome of a search through text that includes the constraint data, where a `?` is a regex quantifier (an optional parameter that is empty skips every constraint) (E8)", func() {
 		f := r.Fn("", "(*routeParser).analyseParameterPart")
 		n := 0
